@@ -18,7 +18,7 @@ META = {
              "one side; distinct by structural hash; non-trivial = contains a Barrier/annotation kind or an explicit relation"),
     "assumptions": ["copies are compared position-wise along the operation listing (signature, relation type, index of the referenced operation, schedule relative to the first start)"],
     "floors": {
-        "quick": {"copies_compared": 6000, "repeated_copies_schedule_compared": 3000, "mutation_independence_checks": 3000, "kinds_min_instances": 20, "unrolled_copies_compared": 5000, "listed_then_copied_compared": 5000, "flattened_copies_compared": 5000, "empty_placeholder_checks": 3000, "copies_compared_after_registry_change": 3000},
+        "quick": {"copies_behind_an_operation_compared": 3000, "programs_with_value_equal_twins": 150, "copies_compared": 6000, "repeated_copies_schedule_compared": 3000, "mutation_independence_checks": 3000, "kinds_min_instances": 20, "unrolled_copies_compared": 5000, "listed_then_copied_compared": 5000, "flattened_copies_compared": 5000, "empty_placeholder_checks": 3000, "copies_compared_after_registry_change": 3000},
         "thorough": {"copies_compared": 60000, "mutation_independence_checks": 30000, "kinds_min_instances": 200},
     },
 }
@@ -35,6 +35,8 @@ def plan(tier: str, seed: int) -> List[Dict[str, Any]]:
 
 def gen_case(rng: random.Random, cls: str) -> Dict[str, Any]:
     prog = gen.gen_program(rng, cls, fields=True)
+    if rng.random() < 0.2:
+        prog["shared_link_twins"] = gen.add_shared_link_twins(rng, prog["circuit"], nested_only=False)
     prog["mutation"] = {"side": rng.choice(["original", "copy"]), "kind": rng.choice(["add", "unroll", "flatten", "add_sub"]),
                         "route": rng.choice(["structure_copy", "add_to_empty"])}
     return prog
@@ -73,18 +75,36 @@ def acquisition(ops) -> List[Tuple]:
     return out
 
 
+_TWINS = [False]     # the program under check holds value-equal twin operations sharing one RelationLink instance (known finding, DESIGN.md 9.2)
+
+
 def compare_snapshots(acc: Acc, case, route: str, a: List[Tuple], b: List[Tuple]):
     acc.count("copies_compared")
     if len(a) != len(b):
         acc.finding(f"copy/length", f"copy ({route}) lists {len(b)} operations, original {len(a)}", case, None)
         return
+    twins = _TWINS[0] and sorted(e[0] for e in a) == sorted(e[0] for e in b)
     for k, (x, y) in enumerate(zip(a, b)):
+        if x[0] != y[0] and twins:
+            # consequence of the known finding below: the operation that was re-pointed to the later twin's copy is also LISTED behind it
+            acc.finding("copy/relation/value-equal-twin", f"a program holding value-equal twin operations is copied with another listing order ({route})", case,
+                        {"pos": k, "original": x[0], "copy": y[0]})
+            return
         if x[0] != y[0]:
             kind = x[0][0]
             acc.finding(f"copy/signature/{kind}", f"copied {kind} differs from the original in kind/qubits/channels/duration/tag/fields ({route})", case,
                         {"pos": k, "original": x[0], "copy": y[0]})
             return
         if x[1] != y[1]:
+            rx, ry = x[1][1], y[1][1]
+            if twins or (x[1][0] == y[1][0] and isinstance(rx, int) and isinstance(ry, int) and 0 <= rx < len(a) and 0 <= ry < len(a) and rx != ry
+                         and a[rx][0] == a[ry][0] and a[rx][1] == a[ry][1]):
+                # known finding (DESIGN.md 9.2): the copy's relation lookup is keyed by VALUE, so of two distinct but value-equal operations
+                # (same kind, qubits, duration and the same RelationLink instance) the later one's copy replaces the earlier one's entry and
+                # whatever referred to the earlier twin is re-pointed to the later twin's copy.  Keyed by that mechanism, nothing else.
+                acc.finding("copy/relation/value-equal-twin", f"relation of a copied {x[0][0]} is re-pointed to the copy of a value-equal twin of the operation it referred to ({route})",
+                            case, {"pos": k, "original": x[1], "copy": y[1]})
+                return
             acc.finding(f"copy/relation/{x[0][0]}", f"relation of a copied {x[0][0]} is not re-pointed to the corresponding copied operation ({route})", case,
                         {"pos": k, "original": x[1], "copy": y[1]})
             return
@@ -124,6 +144,9 @@ def check_program(prog: Dict[str, Any], acc: Acc, flags=None):
     ctx = bp.Ctx(prog.get("settings"))
     case = {"program": prog}
     mut = prog.get("mutation") or {"side": "copy", "kind": "add", "route": "structure_copy"}
+    _TWINS[0] = bool(prog.get("shared_link_twins"))
+    if _TWINS[0]:
+        acc.count("programs_with_value_equal_twins")
     with ctx.global_override():
         # ---- route 1: structure.copy()   (copy first, observe afterwards: observing before copying is a C03 history)
         built = bp.build(prog, ctx)
@@ -257,6 +280,29 @@ def check_program(prog: Dict[str, Any], acc: Acc, flags=None):
             if snapshot(ops_h3, t_h3) != snap_h:
                 acc.finding("independence/empty-placeholder", "filling an empty sub-circuit of the COPY changed what the original reports", case,
                             {"before": len(ops_h), "after": len(ops_h3)})
+        # ---- route 8: the implicit copy is nested BEHIND an operation (not at t = 0), a duration is asked before the first listing, and
+        #      the times are taken as a caller reads them (through the memo): relative to its own first operation the copy has the
+        #      original's schedule (seeded change C05-r13: memo not cleared after the copy's relation was handed to its head operations)
+        if ops_o2:
+            first_q = snap.op_sig(ops_o2[0])[1]
+            built8 = bp.build(prog, bp.Ctx(prog.get("settings")))
+            outer8 = DeclarativeCircuit()
+            outer8.add(bp.make_op({"k": "Wait", "q": [int(first_q[0])], "dur": 3}, ctx, [built8.top]))
+            outer8.add(built8.top.circuit)
+            snap.raw_value(lambda: float(outer8.duration))
+            ops8 = outer8.operations[1:]
+            raw8 = snap.raw_times(ops8)
+            acc.count("copies_behind_an_operation_compared")
+            if len(ops8) == len(ops_o2) and raw8:
+                rel_c = sorted((snap.op_sig(o), round(t[0] - raw8[0][0], 6), round(t[1] - raw8[0][0], 6)) for o, t in zip(ops8, raw8))
+                rel_o = sorted((snap.op_sig(o), round(t[0] - t_o2[0][0], 6), round(t[1] - t_o2[0][0], 6)) for o, t in zip(ops_o2, t_o2))
+                if rel_c != rel_o:
+                    sh8 = snap.shadow_times(ops8)
+                    stale = any(abs(a[0] - b[0]) > 1e-9 or abs(a[1] - b[1]) > 1e-9 for a, b in zip(raw8, sh8))
+                    only_a, only_b = snap.multiset_diff(rel_c, rel_o)
+                    acc.finding("stale-memo/copy-behind-operation" if stale else "copy/schedule-behind-operation",
+                                "a copy nested behind an operation does not report the original's schedule relative to its own start (duration asked before the first listing)",
+                                case, {"only_copy": [repr(x) for x in only_a[:3]], "only_original": [repr(x) for x in only_b[:3]]})
         # ---- independence: mutate one side, the other side's snapshot must not move
         if mut["route"] == "structure_copy":
             # wrap the structure copy so that the DeclarativeCircuit mutators are available on it
